@@ -115,6 +115,55 @@ theorem foreign_id_fails (H : HashFns ι α) (G : GoodHash H) (l rel : List ι) 
   | false => rfl
   | true => exact absurd (proof_sound_mem H G l rel hashes flags hv x hx) hnx
 
+/-- **Tampered proof hashes fail.** Against the generated flags, NO other hash list of the same
+    length validates — in particular not the generated one with any single hash (or several)
+    replaced. -/
+theorem tampered_hashes_fail (H : HashFns ι α) (G : GoodHash H) (l rel : List ι) (hnd : l.Nodup)
+    (hsub : rel.Sublist l) (hashes' : List α) (hlen : hashes'.length = (getProof H l rel).1.length)
+    (hne : hashes' ≠ (getProof H l rel).1) :
+    validate H hashes' (getProof H l rel).2 rel (merkleRoot H l) = false := by
+  cases hv : validate H hashes' (getProof H l rel).2 rel (merkleRoot H l) with
+  | false => rfl
+  | true =>
+    exfalso
+    by_cases hl : l = []
+    · subst hl
+      have : rel = [] := List.sublist_nil.mp hsub
+      subst this
+      simp [getProof, build_nil] at hlen hne
+      exact hne hlen
+    · have hrun := generated_proof_run H G.leaf_inj l rel hl hnd hsub
+      unfold validate at hv
+      simp only [Bool.and_eq_true, decide_eq_true_eq, List.isEmpty_iff] at hv
+      obtain ⟨t, _, hB, hr⟩ := build_built H l hl
+      have hleaf : ∀ m ∈ rel.map H.leafH, ∃ x, H.leafH x = m := by
+        intro m hm; obtain ⟨x, _, hx⟩ := List.mem_map.mp hm; exact ⟨x, hx⟩
+      obtain ⟨c, h1, h2, _⟩ := run_determined G _ _ _ _ _ _ t l hB hleaf hleaf
+        (by rw [hrun]; exact hr) (by rw [← hr]; exact hv.1)
+      rw [hrun] at h1
+      simp only [List.append_nil] at h1
+      rw [← h1] at h2
+      -- hashes' = generated ++ leftover, same length, so leftover = []
+      have : (rootByProofF H ((getProof H l rel).2.length + 1) hashes' (getProof H l rel).2
+          (rel.map H.leafH)).hs = [] := by
+        have hl2 := congrArg List.length h2
+        rw [List.length_append, hlen] at hl2
+        exact List.length_eq_zero_iff.mp (by omega)
+      rw [this, List.append_nil] at h2
+      exact hne h2
+
+/-- one replaced proof hash: the special case the property names -/
+theorem tamper_hash_fails (H : HashFns ι α) (G : GoodHash H) (l rel : List ι) (hnd : l.Nodup)
+    (hsub : rel.Sublist l) (i : Nat) (hi : i < (getProof H l rel).1.length) (h' : α)
+    (hne : h' ≠ (getProof H l rel).1[i]) :
+    validate H ((getProof H l rel).1.set i h') (getProof H l rel).2 rel (merkleRoot H l) = false := by
+  apply tampered_hashes_fail H G l rel hnd hsub
+  · simp
+  · intro h
+    have := congrArg (fun x => x[i]?) h
+    simp only [List.getElem?_set_self hi, List.getElem?_eq_getElem hi, Option.some.injEq] at this
+    exact hne this
+
 /-- `buildMerkleTree` returns nil exactly for the empty list; in particular the nil-dereference
     branch of the model (`left.hash` on a nil child) is never taken. -/
 theorem build_none_iff (H : HashFns ι α) (l : List ι) : build H l = none ↔ l = [] := by
@@ -145,6 +194,11 @@ example : validate freeFns (getProof freeFns [10, 20, 30, 40, 50] [20, 50]).1
 example : (getProof freeFns [10, 20, 30] [20]).2 = [1, 1, 0, 2, 0] := by decide
 example : validate freeFns (getProof freeFns [10, 20, 30] [20]).1 (getProof freeFns [10, 20, 30] [20]).2 [20]
     (merkleRoot freeFns [10, 20]) = false := by decide
+/-- tests on a literal: every single-flag replacement of a generated proof by 0..3 is refused -/
+example : ((List.range 5).all fun i => (List.range 4).all fun f =>
+    f == (getProof freeFns [10, 20, 30] [20]).2.getD i 9 ||
+    !validate freeFns (getProof freeFns [10, 20, 30] [20]).1 ((getProof freeFns [10, 20, 30] [20]).2.set i f) [20]
+      (merkleRoot freeFns [10, 20, 30])) = true := by decide
 /-- recorded, outside the property: with a duplicated id the generated proof does NOT validate -/
 example : validate freeFns (getProof freeFns [10, 10] [10]).1 (getProof freeFns [10, 10] [10]).2 [10]
     (merkleRoot freeFns [10, 10]) = false := by decide
